@@ -244,7 +244,9 @@ Proof.
     match type of H with
     | context [if (N.of_nat (length (fds n1)) <? ?a)%N then _ else _] => set (alloc := a) in *
     end.
-    destruct (N.of_nat (length (fds n1)) <? alloc)%N; simpl in H; [|discriminate].
+    destruct (N.of_nat (length (fds n1)) <? alloc)%N; [|discriminate].
+    match type of H with context [(Z.of_nat ?a <? ?b)%Z] => destruct (Z.of_nat a <? b)%Z end; [|discriminate].
+    cbn [bind] in H.
     unfold rdn in H. simpl in H. rewrite upd_nth_twice in H.
     rewrite nth_error_upd_nth_eq in H by exact Hs. simpl in H.
     rewrite nth_error_snoc_last in H. simpl in H. rewrite upd_nth_app_last in H.
